@@ -583,4 +583,51 @@ example : ∃ evs t, generate e0 Γ8o {} v8n = .ok evs ∧ eventsTree (isDatatyp
 example : valOKI true e0 Γ8o (s "Root") (.obj (s "Root") [(s "a", .none), (s "w", .list []), (s "z", .list [])]) = false := by
   decide
 
+/-! #### unions of primitives -/
+
+def featF9 : Feat :=
+  { nillable := true, tokens := true, wrapper := true, sequence := true, fixed := true, anyAttrs := true,
+    inherit := true, wildcard := true, union := true }
+
+/-- **C01, fragment F9** = F8 + element vars whose type is a union of `str` / `int` / `bool`
+(`Optional[Union[..]]` with default `None`, or a list of them).  A value must be what
+`converter.deserialize` makes of its own serialization: no type that the converter tries earlier
+accepts the text (`unionItemOK`, evaluated with the model's converter). -/
+theorem bind_generate_F9 (e : BEnv) (Γ : Ctx) (cfg : SerCfg) (pcfg : ParserConfig) (c : ClassId) (v : Val)
+    (hΓ : ctxOK featF9 Γ = true) (hv : valOKI true e Γ c v = true) :
+    ∃ evs t, generate e Γ cfg v = .ok evs ∧ eventsTree (isDatatype Γ) evs = .ok t ∧
+      parseRoot e Γ pcfg c t = .ok (v, 0) :=
+  bind_generate_FN featF9 e Γ cfg pcfg c v hΓ hv
+
+/-- `a: Optional[Union[int, str]]`, `b: List[Union[bool, str]]` (the converter tries `int` before `str`,
+`bool` before `str`) -/
+def uA : XmlVar := mkVarN 1 "a" "a" .element [.prim .int, .prim .str]
+def uB : XmlVar := mkVarN 2 "b" "b" .element [.prim .bool, .prim .str] (listElement := true) (default := .listFactory)
+def Γ9 : Ctx := rootOnly [uA, uB] [] none [⟨s "a", true, some .none⟩, ⟨s "b", true, some (.list [])⟩]
+
+def v9 : Val := .obj (s "Root")
+  [(s "a", .prim (.str (s "abc"))), (s "b", .list [.prim (.bool true), .prim (.str (s "x")), .prim (.str [])])]
+def v9i : Val := .obj (s "Root") [(s "a", .prim (.int 5)), (s "b", .list [])]
+
+example : ctxOK featF9 Γ9 = true ∧ ctxOK featF8 Γ9 = false ∧ valOKI true e0 Γ9 (s "Root") v9 = true ∧
+    valOKI true e0 Γ9 (s "Root") v9i = true := by decide
+example : ∃ evs t, generate e0 Γ9 {} v9 = .ok evs ∧ eventsTree (isDatatype Γ9) evs = .ok t ∧
+    parseRoot e0 Γ9 {} (s "Root") t = .ok (v9, 0) :=
+  bind_generate_F9 e0 Γ9 {} {} (s "Root") v9 (by decide) (by decide)
+
+/-- witness 16: a `str` that an earlier type of the union accepts, `Root(b=["true"])` with
+`b: List[Union[bool, str]]` (likewise `"5"` under `Union[int, str]`) … -/
+def w16 : Val := .obj (s "Root") [(s "a", .none), (s "b", .list [.prim (.str (s "true"))])]
+
+/-- … comes back as the `bool` `True` -/
+theorem union_str_reads_as_earlier_type_witness :
+    ctxOK featF9 Γ9 = true ∧ valOKI true e0 Γ9 (s "Root") w16 = false ∧
+    generate e0 Γ9 {} w16 = .ok (evsOf Γ9 w16) ∧
+    eventsTree (isDatatype Γ9) (evsOf Γ9 w16) = .ok (treeOf Γ9 w16) ∧
+    treeOf Γ9 w16 = .node (s "Root") [] [] none [.node (s "b") [] [] (some (s "true")) [] none] none ∧
+    parseRoot e0 Γ9 {} (s "Root")
+        (.node (s "Root") [] [] none [.node (s "b") [] [] (some (s "true")) [] none] none) =
+      .ok (.obj (s "Root") [(s "a", .none), (s "b", .list [.prim (.bool true)])], 0) :=
+  ⟨by decide, by decide, rfl, rfl, rfl, rfl⟩
+
 end Props.C01
